@@ -78,6 +78,14 @@ def shared(name: str, factory):
     return d[name]
 
 
+class ZooCrash(Exception):
+    """Raised on purpose by a handler of the dying_run model (an application bug in an earlier experiment)."""
+
+
+class ZooAbort(BaseException):
+    """Same, but not an Exception subclass (KeyboardInterrupt-like abort caught by the caller)."""
+
+
 class Proc(Entity):
     """Entity whose handler is a function given at construction (user glue code)."""
 
@@ -761,7 +769,7 @@ def _mk_eviction(kind, seed, clock_s):
 def _gen_cached(rng):
     return {"policy": rng.choice(EVICTION + ["random", "sampled_lru"]), "cap": rng.choice([4, 8, 16]), "write_back": rng.random() < 0.5,
             "clients": rng.choice([1, 2, 3]), "ops": rng.choice([80, 140]), "keys": rng.choice([24, 60]),
-            "backing_cap": rng.choice([None, None, 20])}
+            "backing_cap": rng.choice([None, None, 20]), "flushes": rng.choice([0, 1, 2, 2])}
 
 
 @model("cached_store", "caches", _gen_cached)
@@ -783,8 +791,17 @@ def build_cached_store(p, seed):
         return [Event(time=self.now + 0.05, event_type="Flush", target=self, daemon=True)]
 
     fl = Proc("flusher", flusher)
-    sim = Simulation(entities=[backing, cache, fl, *clients])
+
+    def wipe(self, ev):
+        cache.invalidate_all()          # operator flushes the cache mid-run (also clears the eviction policy)
+        return None
+
+    wiper = Proc("wiper", wipe)
+    sim = Simulation(entities=[backing, cache, fl, wiper, *clients])
     _start_clients(sim, clients)
+    span = 0.003 * p["ops"]
+    for i in range(p.get("flushes", 0)):
+        sim.schedule(Event(time=at(span * (i + 1) / (p.get("flushes", 0) + 1.5)), event_type="InvalidateAll", target=wiper))
     if p["write_back"]:
         sim.schedule(Event(time=at(0.05), event_type="Flush", target=fl, daemon=True))
 
@@ -793,6 +810,8 @@ def build_cached_store(p, seed):
         s.probe("cache_eviction", cache.stats.evictions > 0)
         s.probe("cache_eviction_random_policy", p["policy"] in ("random", "sampled_lru") and cache.stats.evictions > 0)
         s.probe("cache_writeback_flush", getattr(fl, "flushed", 0) > 0)
+        s.probe("cache_invalidated_then_evicted_again", wiper.calls > 0 and cache.stats.evictions > 0)
+        s.probe("seeded_policy_cleared_mid_run", wiper.calls > 0 and p["policy"] in ("random", "sampled_lru") and cache.stats.evictions > 0)
         s.add("cache.hit_rate", cache.hit_rate)
         s.add("cache.cached_keys", cache.get_cached_keys())
         s.add("cache.dirty", sorted(cache.get_dirty_keys()))
@@ -804,7 +823,7 @@ def build_cached_store(p, seed):
 
 
 def _gen_softttl(rng):
-    return {"soft": rng.choice([0.01, 0.03]), "hard": rng.choice([0.05, 0.2]), "cap": rng.choice([None, 6, 12]),
+    return {"flushes": rng.choice([0, 1]), "soft": rng.choice([0.01, 0.03]), "hard": rng.choice([0.05, 0.2]), "cap": rng.choice([None, 6, 12]),
             "clients": rng.choice([2, 3]), "ops": rng.choice([80, 120]), "keys": rng.choice([10, 30])}
 
 
@@ -820,8 +839,11 @@ def build_soft_ttl(p, seed):
     cache = SoftTTLCache("cache", backing, soft_ttl=p["soft"], hard_ttl=p["hard"], cache_capacity=p["cap"],
                          cache_read_latency=0.0002)
     clients = [KVClient(f"client-{i}", cache, keys, p["ops"], mix=(0.85, 0.15, 0.0), think_s=0.003) for i in range(p["clients"])]
-    sim = Simulation(entities=[backing, cache, *clients])
+    wiper = Proc("wiper", lambda self, ev: cache.invalidate_all())
+    sim = Simulation(entities=[backing, cache, wiper, *clients])
     _start_clients(sim, clients)
+    if p.get("flushes"):
+        sim.schedule(Event(time=at(0.0015 * p["ops"]), event_type="InvalidateAll", target=wiper))
 
     def stats(s):
         s.add("cache", cache.stats)
@@ -834,7 +856,7 @@ def build_soft_ttl(p, seed):
 
 def _gen_multitier(rng):
     return {"l1": rng.choice(EVICTION), "l2": rng.choice(EVICTION), "cap1": rng.choice([3, 6]), "cap2": rng.choice([10, 20]),
-            "promo": rng.choice(["always", "on_second_access", "never"]), "clients": rng.choice([1, 2]),
+            "promo": rng.choice(["always", "on_second_access", "never"]), "clients": rng.choice([1, 2]), "flushes": rng.choice([0, 1, 2]),
             "ops": rng.choice([80, 120]), "keys": rng.choice([30, 60])}
 
 
@@ -861,7 +883,15 @@ def build_multi_tier(p, seed):
         return None
 
     warmer = Proc("warmer", warm)
-    sim = Simulation(entities=[backing, l1, l2, cache, warmer, *clients])
+
+    def wipe(self, ev):
+        cache.invalidate_all()
+        return None
+
+    wiper = Proc("wiper", wipe)
+    sim = Simulation(entities=[backing, l1, l2, cache, warmer, wiper, *clients])
+    for i in range(p.get("flushes", 0)):
+        sim.schedule(Event(time=at(0.003 * p["ops"] * (i + 1) / (p.get("flushes", 0) + 1.5)), event_type="InvalidateAll", target=wiper))
     sim.schedule(Event(time=at(0.0), event_type="Warm", target=warmer))
     _start_clients(sim, clients, stagger=0.0007)
 
@@ -1497,9 +1527,19 @@ def build_load_balancer(p, seed):
         return [Event(time=self.now + random.uniform(0.05, 0.15), event_type="Flap", target=self, daemon=True)]
 
     fl = Proc("health", flap)
-    sim = Simulation(sources=srcs, entities=[*ents, fl], end_time=at(p["horizon"]))
+
+    def reset_strategies(self, ev):
+        for _, lb, _, _ in groups:
+            st = lb.strategy
+            if hasattr(st, "reset"):
+                st.reset()
+        return None
+
+    rs = Proc("strategy-reset", reset_strategies)
+    sim = Simulation(sources=srcs, entities=[*ents, fl, rs], end_time=at(p["horizon"]))
     if p["flap"]:
         sim.schedule(Event(time=at(0.2), event_type="Flap", target=fl, daemon=True))
+        sim.schedule(Event(time=at(p["horizon"] * 0.5), event_type="ResetStrategies", target=rs))
 
     def stats(s):
         for kind, lb, servers, sink in groups:
@@ -1522,7 +1562,7 @@ def build_load_balancer(p, seed):
 def _gen_sketch(rng):
     return {"items": rng.choice([30, 200]), "rate": rng.choice([300.0, 600.0]), "horizon": 2.0, "width": rng.choice([16, 64, 272]),
             "depth": rng.choice([2, 4]), "k": rng.choice([5, 10]), "weights": rng.random() < 0.5,
-            "item_kind": rng.choice(ITEM_KINDS)}
+            "item_kind": rng.choice(ITEM_KINDS), "clear_at": rng.choice([None, None, 0.3, 0.6])}
 
 
 ITEM_KINDS = ["str", "str", "tuple", "tuple", "dataclass", "frozenset", "frozenset"]
@@ -1591,7 +1631,17 @@ def _sketch_pipeline(p, seed, which):
                                                          "region": UniformDistribution(["us-east", "us-west", "eu", "ap"], seed=sub(seed, 28))},
                                     stop_after=at(p["horizon"] * 0.8))
     src = Source.poisson(rate=p["rate"] / max(1, len(order)), event_provider=prov, name="src")
-    sim = Simulation(sources=[src], entities=[fanout, *order], end_time=at(p["horizon"]))
+
+    def clear_all(self, ev):
+        for c in order:                 # the operator resets the collectors mid-run (seeded sketches start over)
+            if hasattr(c, "clear"):
+                c.clear()
+        return None
+
+    resetter = Proc("resetter", clear_all)
+    sim = Simulation(sources=[src], entities=[fanout, resetter, *order], end_time=at(p["horizon"]))
+    if p.get("clear_at"):
+        sim.schedule(Event(time=at(p["horizon"] * p["clear_at"]), event_type="ClearSketches", target=resetter))
 
     def stats(s):
         if "cms" in cols:
@@ -1616,6 +1666,7 @@ def _sketch_pipeline(p, seed, which):
         for nm, c in cols.items():
             s.add(f"{nm}.events", c.events_processed)
         s.add("regions", regions)
+        s.probe("sketch_cleared_mid_run", resetter.calls > 0)
     return sim, stats
 
 
@@ -2085,6 +2136,204 @@ def build_fault_schedule(p, seed):
     return sim, stats
 
 
+
+# ===========================================================================
+# 16. engine family: a simulation that dies with an exception; events prepared before the run and handed over during it
+# ===========================================================================
+
+def _gen_dying(rng):
+    return {"how": rng.choice(["handler", "generator", "base"]), "after": rng.choice([3, 10, 40]), "rate": rng.choice([50.0, 200.0])}
+
+
+@model("dying_run", "engine", _gen_dying)
+def build_dying_run(p, seed):
+    """An earlier experiment with an application bug: after `after` requests a handler raises (plain handler, inside a generator
+    after a yield, or a BaseException like an abort); run() propagates it and the caller catches it (simkit.c03_exec)."""
+    from happysimulator.components.server.server import Server
+    from happysimulator.distributions.exponential import ExponentialLatency
+
+    seen = []
+
+    def boom(self, ev):
+        seen.append(ev.time.nanoseconds)
+        if len(seen) >= p["after"]:
+            if p["how"] == "base":
+                raise ZooAbort("abort")
+            if p["how"] == "handler":
+                raise ZooCrash("bug in handler")
+        if p["how"] == "generator":
+            def gen():
+                yield 0.001
+                if len(seen) >= p["after"]:
+                    raise ZooCrash("bug after yield")
+                return None
+            return gen()
+        return [Event(time=self.now + 0.0005, event_type="Echo", target=sink)]
+
+    sink = Sink("sink")
+    buggy = Proc("buggy", boom)
+    server = Server("server", concurrency=2, service_time=ExponentialLatency(0.002), downstream=buggy)
+    src = Source.poisson(rate=p["rate"], target=server, event_type="Request", name="src")
+    sim = Simulation(sources=[src], entities=[server, buggy, sink], end_time=at(2.0))
+
+    def stats(s):
+        s.add("seen", len(seen))
+        s.add("last", seen[-3:])
+        s.add("sink", sink.events_received)
+    return sim, stats
+
+
+def _gen_prepared(rng):
+    return {"scheduled": rng.randint(1, 3), "prepared": rng.randint(1, 4), "runtime": rng.randint(1, 4), "before_sim": rng.random() < 0.5,
+            "sources": rng.choice([0, 1, 2]), "rounds": rng.choice([1, 3])}
+
+
+@model("prepared_events", "engine", _gen_prepared)
+def build_prepared_events(p, seed):
+    """Events are *built* before run() but only some are scheduled up front; the rest are kept in a list and handed to the
+    engine by a handler during the run, for the same instant as events the handler creates on the spot.  Creation order is
+    scheduled < prepared < run-time, and that is the order in which same-instant events must be delivered."""
+    seen = []
+
+    def note(self, ev):
+        seen.append((ev.time.nanoseconds, ev.event_type))
+        return None
+
+    probe = Proc("probe", note)
+    rounds = [0.5 * (r + 1) for r in range(p["rounds"])]
+    prepared = {}
+
+    def mk_prepared():
+        for t in rounds:
+            prepared[t] = [Event(time=at(t), event_type=f"prepared-{i}", target=probe) for i in range(p["prepared"])]
+
+    def feed(self, ev):
+        t = ev.context["t"]
+        out = list(prepared[t])                 # built long ago, handed over now
+        out += [Event(time=at(t), event_type=f"runtime-{i}", target=probe) for i in range(p["runtime"])]
+        return out
+
+    feeder = Proc("feeder", feed)
+    srcs = [Source.constant(rate=2.0, target=probe, event_type=f"tick-{i}", name=f"src-{i}", stop_after=rounds[-1]) for i in range(p["sources"])]
+    if p["before_sim"]:
+        mk_prepared_later = False
+    else:
+        mk_prepared_later = True
+    sched = []
+    if not mk_prepared_later:
+        # everything is built before the Simulation object exists (examples build their kick-off events first)
+        sched = [Event(time=at(t), event_type=f"scheduled-{i}", target=probe) for t in rounds for i in range(p["scheduled"])]
+        kicks = [Event(time=at(t - 0.25), event_type="Feed", target=feeder, context={"t": t}) for t in rounds]
+        mk_prepared()
+    sim = Simulation(sources=srcs, entities=[probe, feeder], end_time=at(rounds[-1] + 0.5))
+    if mk_prepared_later:
+        sched = [Event(time=at(t), event_type=f"scheduled-{i}", target=probe) for t in rounds for i in range(p["scheduled"])]
+        kicks = [Event(time=at(t - 0.25), event_type="Feed", target=feeder, context={"t": t}) for t in rounds]
+        mk_prepared()
+    for e in sched + kicks:
+        sim.schedule(e)
+
+    def stats(s):
+        s.add("order", [et for _, et in seen])
+        s.probe("prepared_events_tied_with_runtime_events", len(seen) > 0 and p["prepared"] > 0 and p["runtime"] > 0)
+    return sim, stats
+
+
+# ===========================================================================
+# 17. ParallelSimulation with lossy / latency-overriding partition links
+# ===========================================================================
+
+class _NoControl:
+    def on_event(self, cb):
+        return "no-hook"
+
+
+class _ParallelRun:
+    """What simkit.c03_exec needs from a 'simulation': a control.on_event seam (a ParallelSimulation has none; the model's
+    recorder entities keep the delivery logs) and run()."""
+
+    control = _NoControl()
+
+    def __init__(self, psim):
+        self.psim = psim
+
+    def run(self):
+        return self.psim.run()
+
+
+def _gen_parallel(rng):
+    return {"senders": rng.choice([2, 3, 4]), "receivers": rng.choice([1, 2]), "rate": rng.choice([50.0, 100.0]), "loss": rng.choice([0.0, 0.3, 0.5]),
+            "latency": rng.choice([None, "exp", "exp"]), "window": rng.choice([None, 0.01]), "horizon": rng.choice([1.0, 2.0]), "ack": rng.random() < 0.5}
+
+
+@model("parallel_links", "parallel", _gen_parallel)
+def build_parallel_links(p, seed):
+    """Sender partitions (constant-rate sources, deterministic handlers: no module-level random in worker threads) forward to
+    recorder partitions over PartitionLinks with packet loss and / or a sampled latency override — both drawn by the
+    coordinator from its seeded generator while it exchanges the outboxes; several partitions send in every window."""
+    from happysimulator.distributions.exponential import ExponentialLatency
+    from happysimulator.parallel import ParallelSimulation, PartitionLink, SimulationPartition
+
+    if p["loss"] == 0.0 and p["latency"] is None:
+        p = {**p, "loss": 0.3}
+    logs = {}
+
+    def mk_recorder(name):
+        log = logs.setdefault(name, [])
+
+        def rec(self, ev):
+            log.append((ev.time.nanoseconds, ev.event_type, ev.context.get("seq")))
+            if p["ack"] and ev.context.get("seq", 0) % 5 == 0:
+                return [Event(time=self.now + 0.03, event_type=f"ack_{self.name}", target=ev.context["from"], context={"seq": ev.context["seq"]})]
+            return None
+        return Proc(name, rec)
+
+    recorders = [mk_recorder(f"rec{j}") for j in range(p["receivers"])]
+
+    def mk_sender(name, k):
+        state = {"sent": 0, "acks": 0}
+
+        def snd(self, ev):
+            if ev.event_type.startswith("ack_"):
+                state["acks"] += 1
+                return None
+            state["sent"] += 1
+            tgt = recorders[(state["sent"] + k) % len(recorders)]
+            return [Event(time=self.now + 0.02, event_type=f"from_{name}", target=tgt, context={"seq": state["sent"], "from": self})]
+        pr = Proc(name, snd)
+        pr.state = state
+        return pr
+
+    senders = [mk_sender(f"snd{i}", i) for i in range(p["senders"])]
+    parts, links = [], []
+    for i, sd in enumerate(senders):
+        src = Source.constant(rate=p["rate"], target=sd, event_type="tick", name=f"src{i}", stop_after=p["horizon"] * 0.9)
+        parts.append(SimulationPartition(name=f"p{i}", entities=[sd], sources=[src]))
+    for j, rc in enumerate(recorders):
+        parts.append(SimulationPartition(name=f"r{j}", entities=[rc]))
+    lat = (lambda: ExponentialLatency(0.015)) if p["latency"] == "exp" else (lambda: None)
+    for i in range(len(senders)):
+        for j in range(len(recorders)):
+            links.append(PartitionLink(f"p{i}", f"r{j}", min_latency=0.02, latency=lat(), packet_loss=p["loss"]))
+            if p["ack"]:
+                links.append(PartitionLink(f"r{j}", f"p{i}", min_latency=0.02))
+    psim = ParallelSimulation(partitions=parts, links=links, end_time=at(p["horizon"]), window_size=p["window"], seed=sub(seed, 51))
+
+    def stats(s):
+        import hashlib as _h
+
+        for name, log in logs.items():
+            s.add(f"{name}.received", len(log))
+            s.add(f"{name}.log", _h.blake2b(repr(log).encode(), digest_size=8).hexdigest())
+            s.add(f"{name}.first", log[:4])
+        for sd in senders:
+            s.add(f"{sd.name}", sd.state)
+        total_sent = sum(sd.state["sent"] for sd in senders)
+        s.probe("parallel_cross_partition_loss", 0 < sum(len(l) for l in logs.values()) < total_sent)
+        s.probe("parallel_several_senders_per_window", len(senders) >= 2 and total_sent > 10)
+    return _ParallelRun(psim), stats
+
+
 # ---------------------------------------------------------------------------
 # variant = the categorical parameter(s) that select the code path; part of the violation signature so that a recorded
 # finding about one policy/strategy does not hide another one in the same model
@@ -2126,5 +2375,8 @@ VARIANT = {
     "ttl_cache_server": lambda p: p["clock"],
     "write_policy": lambda p: p["policy"],
     "fault_schedule": lambda p: "+".join(p["extra"]),
+    "dying_run": lambda p: p["how"],
+    "prepared_events": lambda p: "built-before-sim" if p["before_sim"] else "built-after-sim",
+    "parallel_links": lambda p: ("loss" if p["loss"] else "noloss") + ("+latency" if p["latency"] else "") + ("+ack" if p["ack"] else ""),
 }
 assert set(VARIANT) == set(ZOO), set(VARIANT) ^ set(ZOO)
